@@ -60,6 +60,7 @@ var c05Bin = []string{"add", "sub", "mul", "div", "rem", "band", "bor", "bxor", 
 func isStrTok(t string) bool { return strings.HasPrefix(t, "s:") }
 
 func genC05(c *h.Ctx) {
+	genOop(c)
 	vs := c05Values(c.Rng)
 	bd := h.BoundaryDoubles()
 	for _, op := range c05Unary {
@@ -112,6 +113,8 @@ func genC05(c *h.Ctx) {
 func implC05(line string) string {
 	f := strings.Fields(line)
 	switch f[0] {
+	case "oop":
+		return implOop(f)
 	case "toInt32":
 		return fmt.Sprint(otto.VerifToInt32(h.ParseVal(f[1])))
 	case "toUint32":
